@@ -296,7 +296,8 @@ static Plan shrink(const Plan &orig, const Outcome &want, unsigned &tries) {
 static bool write_replay(const std::string &path, const Plan &p, const Outcome &o, uint64_t base, uint64_t index, unsigned tries, const Plan &orig) {
     std::ofstream f(path); if (!f) return false;
     size_t ops0 = 0, ops1 = 0; for (auto &pr : orig.programs) ops0 += pr.size(); for (auto &pr : p.programs) ops1 += pr.size();
-    f << "{\n  \"engine\": \"simB\",\n  \"variant\": \"sched\",\n  \"property\": \"C20\",\n  \"verif_seed\": " << base << ",\n  \"index\": " << index << ",\n  \"run_seed\": " << p.seed
+    const char *variant = std::getenv("SIM_VARIANT");
+    f << "{\n  \"engine\": \"simB\",\n  \"variant\": \"" << (variant && *variant ? variant : "sched") << "\",\n  \"property\": \"C20\",\n  \"verif_seed\": " << base << ",\n  \"index\": " << index << ",\n  \"run_seed\": " << p.seed
       << ",\n  \"class\": \"" << json_escape(o.cls) << "\",\n  \"site\": \"" << json_escape(o.site) << "\",\n  \"message\": \"" << json_escape(o.msg) << "\",\n  \"original\": {\"threads\": " << orig.programs.size()
       << ", \"ops\": " << ops0 << "},\n  \"minimised\": {\"threads\": " << p.programs.size() << ", \"ops\": " << ops1 << ", \"switches\": " << p.switches.size() << "},\n  \"shrink_executions\": " << tries << ",\n  \"plan\": [\n";
     std::istringstream is(plan_to_text(p)); std::string line; bool first = true;
